@@ -410,3 +410,31 @@ Theorem parse_render_lst : forall (v : text) (bs : list wblock) (numbers : list 
     version_ok v = true -> forallb wblock_ok bs = true ->
     read_lst (render_lst v bs) numbers = LstOk v (map (fun n => (n, expected_facts bs n)) numbers).
 Proof. exact parse_render_lst_lemma. Qed.
+
+(* ---- the subproblem argument of results._parse_phi (C20/Sub.v) ------------------------------------------------------
+   With subproblem = k the reader takes phi_tables.tables[k - 1] (Python indexing; optimal-design tables are NOT
+   skipped) instead of the last table that is not an optimal-design table; everything after the choice of the table
+   (phi_of_table) is the same code (Sub.parse_phi_unfold: Model.parse_phi is that function on the default table).
+   For EVERY well-formed written phi file ws, name map, eta names and k:
+   - 1 <= k <= number of tables: the result is exactly what the k-th WRITTEN table gives;
+   - k beyond the number of tables (or k <= -number of tables): IndexError, never another table's values;
+   - k = number of tables and the last table is not an optimal-design table: the same result as without subproblem. *)
+From PV Require Import C20.Check C20.Sub.
+
+Theorem phi_subproblem_positional : forall (ws : list wtable) (nm : list (text * text)) (rv : list text) (k : Z) (d : wtable),
+    wfile_ok SPhi false ws = true -> (1 <= k <= Z.of_nat (List.length ws))%Z ->
+    parse_phi_sub (Some (render_wfile ws)) nm rv (Some k) =
+    phi_of_table (table_of_wtable SPhi false (nth (Z.to_nat (k - 1)) ws d)) nm rv.
+Proof. exact phi_subproblem_render_lemma. Qed.
+
+Theorem phi_subproblem_out_of_range : forall (ws : list wtable) (nm : list (text * text)) (rv : list text) (k : Z),
+    wfile_ok SPhi false ws = true -> (Z.of_nat (List.length ws) < k \/ k <= - Z.of_nat (List.length ws))%Z ->
+    parse_phi_sub (Some (render_wfile ws)) nm rv (Some k) = RErr 4%N.
+Proof. exact phi_subproblem_out_of_range_lemma. Qed.
+
+Theorem phi_subproblem_last_is_default : forall (ws : list wtable) (w : wtable) (nm : list (text * text)) (rv : list text),
+    wfile_ok SPhi false (ws ++ [w]) = true -> not_design (table_of_wtable SPhi false w) = true ->
+    parse_phi_sub (Some (render_wfile (ws ++ [w]))) nm rv (Some (Z.of_nat (List.length (ws ++ [w])))) =
+    parse_phi (Some (render_wfile (ws ++ [w]))) nm rv.
+Proof. exact phi_subproblem_last_lemma. Qed.
+
